@@ -346,38 +346,91 @@ def _outcome_construct(oc) -> str:
 
 
 # --------------------------------------------------------------------------- R14.4
+class _EnterOps:
+    """enter_context for a manager that is async (has __aexit__) or sync (AttributeError on
+    __aexit__), whose enter succeeds or raises."""
+
+    def __init__(self, cm: str, is_async: bool, enter_ok: bool):
+        self.cm, self.is_async, self.enter_ok = cm, is_async, enter_ok
+
+    def attr(self, value, name, node, env):
+        if value == "CM":
+            return ("meth", "CM", name)
+        if value == "SELF":
+            return ("self", name)
+        return UNKNOWN
+
+    def _is_enter(self, node) -> Optional[str]:
+        e = node.ast
+        if node.kind == "await" and isinstance(e, ast.Await):
+            e = e.value
+            if isinstance(e, ast.Call) and isinstance(e.func, ast.Attribute) and e.func.attr == "__aenter__":
+                return "aenter"
+            return None
+        if node.kind == "call" and isinstance(e, ast.Call) and isinstance(e.func, ast.Attribute) and e.func.attr == "__enter__":
+            return "enter"
+        return None
+
+    def raises(self, node, env):
+        if node.kind == "attr" and isinstance(node.ast, ast.Attribute) and node.ast.attr in ("__aexit__", "__aenter__") \
+                and not self.is_async and isinstance(node.ast.value, ast.Name) and env.get(node.ast.value.id) == "CM":
+            return ("new", "AttributeError")
+        if self._is_enter(node) and not self.enter_ok:
+            return ("new", "EnterError")
+        return None
+
+    def matches(self, type_node, exc, env):
+        names = [norm(t) for t in (type_node.elts if isinstance(type_node, ast.Tuple) else [type_node])] if type_node is not None else ["BaseException"]
+        if isinstance(exc, tuple) and exc[:1] == ("new",):
+            return exc[1] in names or "BaseException" in names or ("Exception" in names and exc[1] != "CancelledError")
+        return UNKNOWN
+
+    def call(self, func, args, kwargs, node, env):
+        if func.split(".")[-1] == "awaitify" and len(args) == 1:
+            return ("awaitified", args[0])
+        if isinstance(node.func, ast.Attribute) and node.func.attr in ("__enter__", "__aenter__"):
+            return ("entered", node.func.attr)
+        return UNKNOWN
+
+    def visit(self, node, env, ev):
+        kind = self._is_enter(node)
+        if kind:
+            env["@entered"] = env.get("@entered", ()) + (kind,)
+        if node.kind == "call" and isinstance(node.ast.func, ast.Attribute) and norm(node.ast.func.value) == f"self.{STACK_ATTR}" \
+                and node.ast.func.attr in ("append", "appendleft"):
+            arg = ev.eval(node.ast.args[0], env) if node.ast.args else UNKNOWN
+            env["@registered"] = env.get("@registered", ()) + ((arg, env.get("@entered", ())),)
+
+
 def r14_4(ctx) -> None:
     u = ctx.unit("contextlib.ExitStack.enter_context")
     cfg = cfg_of(u)
-    cm = u.param_names()[1]
-    regs = [n for n in cfg.nodes if n.kind == "call" and not n.tag and isinstance(n.ast.func, ast.Attribute)  # type: ignore[union-attr]
-            and norm(n.ast.func.value) == f"self.{STACK_ATTR}"]  # type: ignore[union-attr]
-    enters = [n for n in cfg.nodes if not n.tag and (
-        (n.kind == "await" and "__aenter__" in norm(n.ast)) or
-        (n.kind == "call" and isinstance(n.ast.func, ast.Attribute) and n.ast.func.attr == "__enter__"  # type: ignore[union-attr]
-         and norm(n.ast.func.value) == cm))]  # type: ignore[union-attr]
-    ctx.check(bool(regs) and bool(enters), "R14.4", u, "enter_context", "enter_context enters the manager and registers its exit")
-    for r in regs:
-        path = find_path(cfg.entry, lambda x, r=r: x is r, avoid=lambda x: x in enters,
-                         edge_ok=lambda a, lab, b: lab not in ("e", "p") or a.kind in ("attr",))
-        ctx.check(path is None, "R14.4", u, r, "the registration is dominated by the successful enter of the manager",
-                  node=r, witness=pretty_path(path))
-        arg = r.ast.args[0] if r.ast.args else None  # type: ignore[union-attr]
-        v = ctx.vals.expr(u, arg, r) if arg is not None else frozenset()
-        src = f"{u.short}:{cm}"
-        ok = v and all((a[0] == "usermeth" and a[1] == src and a[2] in ("__aexit__", "__exit__")) or
-                       (a[0] == "acall" and a[1] == src) for a in v)
-        ctx.check(bool(ok), "R14.4", u, r, "the registered exit is the __aexit__/__exit__ of the manager just entered",
-                  node=r, witness=str(sorted(v)))
-    for e in enters:
-        start = e.exc_succ()
-        if start is None:
-            continue
-        cont = reachable([start], edge_ok=lambda a, lab, b: b.kind in ("dispatch", "raise_exit", "reraise", "handler")
-                         or b.tag == "exc" or any(k == "handler" for (k, _x) in b.regions))
-        bad = [n for n in cont if n in regs]
-        ctx.check(not bad, "R14.4", u, bad[0] if bad else e,
-                  "a manager whose enter failed is not registered for exit", node=bad[0] if bad else e)
+    me, cm = u.param_names()[0], u.param_names()[1]
+    table = {}
+    for is_async in (True, False):
+        for enter_ok in (True, False):
+            ctx.count("enter_context_cells")
+            cell = f"{'async' if is_async else 'sync'} manager, enter {'succeeds' if enter_ok else 'raises'}"
+            ops = _EnterOps(cm, is_async, enter_ok)
+            outs = Machine(cfg, ops, resolver=make_resolver(ctx, u, ops, skip=("awaitify",))).run({me: "SELF", cm: "CM"})
+            want_exit = ("meth", "CM", "__aexit__") if is_async else ("awaitified", ("meth", "CM", "__exit__"))
+            want_enter = ("aenter",) if is_async else ("enter",)
+            if not outs:
+                ctx.fail("R14.4", u, "enter_context", f"[{cell}] could not be evaluated")
+            for oc in outs:
+                regs = oc.env.get("@registered", ())
+                entered = oc.env.get("@entered", ())
+                if enter_ok:
+                    ok = oc.terminal.kind == "exit" and entered == want_enter and len(regs) == 1 \
+                        and regs[0][0] == want_exit and regs[0][1] == want_enter \
+                        and oc.returned == ("entered", "__aenter__" if is_async else "__enter__")
+                    what = "the manager is entered once, then its own exit is registered, and the enter result is returned"
+                else:
+                    ok = oc.terminal.kind == "raise_exit" and not regs and oc.raised == ("new", "EnterError")
+                    what = "the enter's exception propagates and nothing is registered (a manager whose enter failed is not exited)"
+                table[cell] = f"{oc.terminal.kind}; entered={entered}; registered={[r[0] for r in regs]}"
+                ctx.check(ok, "R14.4", u, "enter_context", f"[{cell}] {what}", witness=table[cell] + f"; returned={oc.returned}; raised={oc.raised}")
+    ctx.tables["enter_context"] = table
 
 
 # --------------------------------------------------------------------------- R14.5
@@ -399,15 +452,34 @@ def r14_5(ctx) -> None:
         ctx.check(isinstance(val, ast.Constant) and val.value is False, "R14.5", u, rets[-1] if rets else "_aexit_callback",
                   "a callback can never suppress: constant False is returned")
     m = ctx.unit("contextlib.ExitStack.callback")
+    mcfg = cfg_of(m)
+    cbp = m.param_names()[1]
     va = m.node.args.vararg.arg if m.node.args.vararg else None
     kw = m.node.args.kwarg.arg if m.node.args.kwarg else None
-    partials = [n for n in own_nodes(m.node) if isinstance(n, ast.Call) and norm(n.func) == "partial"]
-    bound = [p for p in partials if any(isinstance(a, ast.Starred) and norm(a.value) == va for a in p.args)
-             and any(k.arg is None and norm(k.value) == kw for k in p.keywords)]
-    ok = bool(bound) and any(isinstance(b.args[0], ast.Call) and norm(b.args[0].func).endswith("awaitify") for b in bound)
-    ctx.check(ok, "R14.5", m, "callback", "callback() binds *args and **kwargs unchanged to the (awaitified) callback")
-    wraps = [p for p in partials if norm(p.args[0]).endswith("_aexit_callback")] if partials else []
-    ctx.check(bool(wraps), "R14.5", m, "callback", "the bound callback is registered through _aexit_callback (cannot suppress)")
+    from .common import inline_locals
+    regs = [n for n in mcfg.nodes if n.kind == "call" and not n.tag and isinstance(n.ast.func, ast.Attribute)
+            and norm(n.ast.func.value) == f"self.{STACK_ATTR}" and n.ast.args]
+    ctx.check(len(regs) == 1, "R14.5", m, "callback", "callback() registers one exit")
+    for r in regs:
+        e = inline_locals(ctx, m, mcfg, r, r.ast.args[0])
+
+        def is_partial(x):
+            return isinstance(x, ast.Call) and ctx.pkg.resolve_expr_global(m.module, x.func).qual in ("functools.partial",) and x.args
+
+        outer_ok = is_partial(e) and norm(e.args[0]).endswith("._aexit_callback") and len(e.args) == 2 and not e.keywords
+        ctx.check(bool(outer_ok), "R14.5", m, r, "the bound callback is registered through _aexit_callback (cannot suppress)",
+                  node=r, witness=norm(e))
+        inner = e.args[1] if outer_ok else None
+        ok = False
+        if inner is not None and is_partial(inner):
+            f = inner.args[0]
+            wrapped = isinstance(f, ast.Call) and ctx.pkg.resolve_expr_global(m.module, f.func).qual.endswith("_core.awaitify") \
+                and len(f.args) == 1 and norm(f.args[0]) == cbp
+            stars = [a for a in inner.args[1:]]
+            ok = wrapped and len(stars) == 1 and isinstance(stars[0], ast.Starred) and norm(stars[0].value) == va \
+                and len(inner.keywords) == 1 and inner.keywords[0].arg is None and norm(inner.keywords[0].value) == kw
+        ctx.check(bool(ok), "R14.5", m, r, "callback() binds *args and **kwargs unchanged to the (awaitified) callback",
+                  node=r, witness=norm(e))
 
 
 # --------------------------------------------------------------------------- R14.6
